@@ -94,6 +94,148 @@ def operand_kind(ctx, b, o, depth=0, fields=True):
     return ty
 
 
+
+# ------------------------------------------------------------------------------------------------ value ranges
+
+U64MAX = (1 << 64) - 1
+TYPE_MAX = {'u8': 255, 'u16': 65535, 'u32': (1 << 32) - 1, 'u64': U64MAX, 'usize': U64MAX, 'u128': (1 << 128) - 1}
+
+
+def interval(t, depth=0):
+    """Interval of an unsigned integer term of the abstract interpreter, or None (unknown).  Sound for the operators below; a
+    loop variable drawn from a literal range `a..b` lies in [a, b-1]."""
+    if not isinstance(t, tuple) or not t or depth > 24:
+        return None
+    k = t[0]
+    if k == 'c':
+        return (t[1], t[1]) if isinstance(t[1], int) and not isinstance(t[1], bool) and t[1] >= 0 else None
+    if k == 'cast':
+        iv = interval(t[1], depth + 1)
+        mx = TYPE_MAX.get(t[2] if len(t) > 2 else None)
+        if iv is not None and (mx is None or iv[1] <= mx):
+            return iv
+        return (0, mx) if mx is not None else None
+    if k == 'payload' and t[2] == 'Some' and isinstance(t[1], tuple) and t[1] and t[1][0] == 'call' and str(t[1][1]).endswith('::next'):
+        rg = t[1][2][0] if t[1][2] else None
+        if isinstance(rg, tuple) and rg and rg[0] == 'aggr' and str(rg[1]).endswith('ops::Range') and len(rg[3]) == 2:
+            lo, hi = interval(rg[3][0], depth + 1), interval(rg[3][1], depth + 1)
+            if lo is not None and hi is not None and hi[1] >= 1:
+                return (lo[0], hi[1] - 1)
+        return None
+    if k == 'bin':
+        op = t[1]
+        a, b = interval(t[2], depth + 1), interval(t[3], depth + 1)
+        if op == 'BitAnd':
+            his = [x[1] for x in (a, b) if x is not None]
+            return (0, min(his)) if his else None
+        if op in ('Rem',) and b is not None and b[0] >= 1:
+            return (0, b[1] - 1)
+        if op in ('min',):
+            his = [x[1] for x in (a, b) if x is not None]
+            return (0, min(his)) if his else None
+        if a is None or b is None:
+            if op in ('Shr', 'Div', 'saturating_sub', 'Sub') and a is not None:
+                return (0, a[1])
+            return None
+        if op in ('Add', 'AddUnchecked', 'saturating_add', 'wrapping_add'):
+            return (a[0] + b[0], a[1] + b[1])
+        if op in ('Sub', 'saturating_sub'):
+            return (max(a[0] - b[1], 0), a[1])
+        if op in ('Mul', 'saturating_mul'):
+            return (a[0] * b[0], a[1] * b[1])
+        if op == 'Shl' and b[1] < 128:
+            return (a[0] << b[0], a[1] << b[1])
+        if op == 'Shr' and b[1] < 128:
+            return (a[0] >> b[1], a[1] >> b[0])
+        if op in ('BitOr', 'BitXor'):
+            n = max(a[1], b[1]).bit_length()
+            return (0, (1 << n) - 1)
+        if op == 'Div' and b[0] >= 1:
+            return (a[0] // b[1], a[1] // b[0])
+        if op == 'max':
+            return (max(a[0], b[0]), max(a[1], b[1]))
+    return None
+
+
+def _assert_holds(kind, ops, bits):
+    """The assert cannot fire for any values in the operands' intervals."""
+    ivs = [interval(o) for o in ops]
+    mx = (1 << bits) - 1 if bits else None
+    if kind in ('Overflow(Shl)', 'Overflow(Shr)') and len(ops) == 2:
+        return ivs[1] is not None and bits is not None and ivs[1][1] < bits
+    if kind == 'Overflow(Add)' and len(ops) == 2:
+        return None not in ivs and mx is not None and ivs[0][1] + ivs[1][1] <= mx
+    if kind == 'Overflow(Mul)' and len(ops) == 2:
+        return None not in ivs and mx is not None and ivs[0][1] * ivs[1][1] <= mx
+    if kind == 'Overflow(Sub)' and len(ops) == 2:
+        return None not in ivs and ivs[0][0] >= ivs[1][1]
+    if kind == 'BoundsCheck' and len(ops) == 2:
+        return None not in ivs and ivs[1][1] < ivs[0][0]
+    if kind in ('DivisionByZero', 'RemainderByZero') and ops:
+        return ivs[0] is not None and ivs[0][0] >= 1
+    return False
+
+
+class RangeProver:
+    """Discharges an arithmetic assert by interval evaluation of its operand terms on every path that reaches it: in the function itself,
+    else (private function) in every caller with the function inlined."""
+
+    def __init__(self, ctx):
+        self.ctx = ctx
+        self.cache = {}
+        self.pub = set(ctx.prog.public_api())
+
+    def _events(self, root, force=()):
+        key = (root, tuple(sorted(force)))
+        if key not in self.cache:
+            ev = defaultdict(list)
+            modpre = root.split('::')[0:2]
+
+            def pol(n_, bb, d):
+                if n_ in force:
+                    return True
+                # small helpers of the same module are part of the computation
+                return True if (d < 3 and not bb.loops() and len(bb.blocks) <= 40 and n_.split('::')[0:2] == modpre) else None
+            try:
+                sx = self.ctx.symex(inline_depth=4, loop_visits=2, inline_pred=pol, havoc_loops=True, max_paths=1500)
+                for p in sx.run(root):
+                    for e in p.events:
+                        if e[0] == 'assert':
+                            ev[(e[4], e[5])].append(e)
+            except PathLimit:
+                ev = None
+            self.cache[key] = ev
+        return self.cache[key]
+
+    def proved(self, nid, bi, kind, bits):
+        return self._prove((nid, bi), kind, bits, nid, (), 0)
+
+    def _prove(self, site, kind, bits, root, force, depth):
+        prog = self.ctx.prog
+        ev = self._events(root, force=force)
+        if ev is not None:
+            occ = ev.get(site, [])
+            if occ and all(_assert_holds(kind, e[2], bits) for e in occ):
+                return 'in %s (%d path occurrence(s))' % (root.split('::')[-1], len(occ))
+        # calling contexts are consulted for small private helpers only
+        if depth >= 3 or root in self.pub or len(prog.bodies[root].blocks) > 40:
+            return None
+        callers = set()
+        for c in prog.callers().get(root, ()):
+            callers.add(prog.bodies[c].root if (prog.bodies[c].kind == 'closure' and prog.bodies[c].root) else c)
+        callers.discard(root)
+        # value ranges of a helper's parameters are established by the helper's own module; other modules are not searched
+        if not callers or len(callers) > 4 or any(c.split('::')[0:2] != root.split('::')[0:2] or len(prog.bodies[c].blocks) > 80 for c in callers):
+            return None
+        whys = []
+        for c in sorted(callers):
+            w = self._prove(site, kind, bits, c, tuple(sorted(set(force) | {root})), depth + 1)
+            if not w:
+                return None
+            whys.append(w)
+        return 'in every calling context: ' + '; '.join(whys)
+
+
 def const_of(o):
     return o.get('val') if o.get('k') == 'const' and 'val' in o else None
 
@@ -110,6 +252,7 @@ def rule_inv_arith(ctx):
     where = {}
     tkey = {}
     auto = 0
+    prover = RangeProver(ctx)
     for nid, b in sorted(prog.bodies.items()):
         for bi, t in b.all_terms():
             if t['t'] != 'assert':
@@ -166,6 +309,17 @@ def rule_inv_arith(ctx):
                 r.instance(function=nid, kind=kind, operands=shapes, discharged='UNIT-STEP')
                 auto += 1
                 continue
+            # RANGE: interval evaluation of the operand terms on every path reaching the assert
+            o0 = ops[0] if ops else None
+            ty0 = (o0.get('pty') if o0 and o0.get('k') != 'const' else None) or (b.local_ty(op_local(o0))['s'] if o0 is not None and op_local(o0) is not None else None) or \
+                ((o0.get('ty') or {}).get('s') if o0 else None)
+            bits = INT_BITS.get(ty0)
+            if kind == 'BoundsCheck' or bits:
+                why = prover.proved(nid, bi, kind, bits)
+                if why:
+                    r.instance(function=nid, kind=kind, operands=shapes, discharged='RANGE', where_proved=why)
+                    auto += 1
+                    continue
             key = '%s|%s' % (kind, ','.join(kinds))
             found[key] += 1
             where[key] = (nid, t.get('line'))
@@ -397,7 +551,9 @@ def rule_ptr_guarded_call(ctx):
     if len(unsafe_ops) < 3:
         raise CheckFailure('PTR-guarded-call: unsafe deque operations not found: %s' % sorted(unsafe_ops))
     n = 0
-    callers = sorted({c for u in unsafe_ops for c in prog.callers().get(u, ()) if not c.startswith('common::deque::')})
+    # closures are analysed in the context of the function that creates them (the iterator / Option adaptors run them in place)
+    callers = sorted({(prog.bodies[c].root if prog.bodies[c].kind == 'closure' and prog.bodies[c].root else c)
+                      for u in unsafe_ops for c in prog.callers().get(u, ()) if not c.startswith('common::deque::')})
     for c in callers:
         b = prog.bodies[c]
         try:
@@ -562,7 +718,11 @@ def rule_deque_shape(ctx):
     n = 0
     for nid in sorted(fns):
         b = prog.bodies[nid]
-        sx = ctx.symex(inline_depth=1, loop_visits=2, inline_pred=lambda n_, bb, d: True if (n_.startswith('common::deque::Deque::') and n_.split('::')[-1] in ('is_at_cursor', 'is_tail', 'is_head') ) else False)
+        # the list's own read-only predicates (is this node the head / the tail / under the cursor, however they are factored) are part of the path
+        def _pure_pred(n_, bb, d):
+            return bool(n_.startswith('common::deque::Deque::') and d < 3 and not bb.loops() and
+                        not any(e[0] == 'write' for e in ctx.eff.transitive(n_)) and not ctx.eff.mut_params.get(n_))
+        sx = ctx.symex(inline_depth=3, loop_visits=2, inline_pred=_pure_pred)
         try:
             paths = [p for p in sx.run(nid) if not p.diverged]
         except PathLimit:
